@@ -1,7 +1,9 @@
 """C16 - generated OpenAPI / OpenRPC documents are valid, closed, complete and pure."""
 from __future__ import annotations
 
+import collections
 import dataclasses as dc
+import itertools
 import json
 import os
 import subprocess
@@ -19,11 +21,18 @@ LEVEL = 'exploration'
 RULE = ('one case = one generated method set (1..3, thorough 4 methods; annotated scalar / container / model / optional / enum '
         'parameters, return annotations incl. None and missing, docstrings with / without params / returns / raises / '
         'deprecation, annotation combinations incl. one errors list shared by two methods, tags, examples, servers, security, '
-        'explicit schemas, component prefixes on some methods only, view methods) x extractor stack x endpoint prefixes x '
-        'document kind (OpenAPI 3.1.0, OpenAPI 3.0.3, OpenRPC 1.3.2), generated 1..3 times. Judged in-process: no '
+        'explicit schemas, component prefixes on some methods only, view methods; errors incl. refinements of one generic '
+        'error - DIFFERENT JsonRpcError classes that inherit one code - documented for different methods) x extractor stack x '
+        'endpoint prefixes x document kind (OpenAPI 3.1.0, OpenAPI 3.0.3, OpenRPC 1.3.2), generated 1..3 times; the values of '
+        'methods_map are lists or (every second sampled case) one-shot iterables (generator, filter, map, iter, chain, reversed, '
+        'islice; a fresh one per generation) or other non-list iterables (tuple, dict values view, deque, a plain __iter__ '
+        'object). After 2..3 generations the same specification object (3: another specification object handed the SAME '
+        'extractor objects) documents a second registry with other signatures and the sibling error classes (same code) and '
+        'must produce what a fresh one produces. Judged in-process: no '
         'exception, encodable by specs.JSONEncoder, every (endpoint, method) described exactly once, repeated generation '
         'identical, structural fingerprints (values, container identities and lengths) of __pjrpc_meta__, annotation lists '
-        'and user objects unchanged, and the isolation relation "entry of m generated alone (all $ref inlined) == entry of m '
+        'and user objects unchanged, no entry shows the class name or message of an error class that only other methods '
+        'document, and the isolation relation "entry of m generated alone (all $ref inlined) == entry of m '
         'generated together with the others, in any order". Judged out of process (python3-vt, jsonschema 4.x): validity '
         'against the vendored official meta-schemas and resolution of every local $ref. Distinct = distinct (method set, '
         'stack, kind, prefixes).')
@@ -51,7 +60,10 @@ FLOORS = {'*': {**{f'{k}:{s}': 5 for k in ('oas31', 'oas30') for s in STACKS},
                 **{f'openrpc:{s}': 5 for s in ('default', 'pydantic', 'docstring')},
                 'shared-errors-list': 10, 'prefix-on-first-only': 5, 'prefix-on-later-only': 5, 'worker:oas31': 20, 'worker:oas30': 20,
                 'worker:openrpc': 20, 'isolation-comparisons': 100, 'repeat-generations': 100, 'view-method': 10,
-                'status-map-errors': 10, 'fingerprints-compared': 100, 'reused-spec-comparisons': 50, 'bystander-specs': 50, 'same-name-on-two-endpoints': 10, 'names-differing-only-in-separators': 5, 'pydantic-extractor-with-model-config': 20, 'root-path-with-a-trailing-slash': 50, 'one-annotate-decorator-object-on-several-methods': 10, 'methods-are-partial-objects': 10}}
+                'status-map-errors': 10, 'fingerprints-compared': 100, 'reused-spec-comparisons': 50, 'bystander-specs': 50, 'same-name-on-two-endpoints': 10, 'names-differing-only-in-separators': 5, 'pydantic-extractor-with-model-config': 20, 'root-path-with-a-trailing-slash': 50, 'one-annotate-decorator-object-on-several-methods': 10, 'methods-are-partial-objects': 10,
+                'methods-map-values:one-shot-iterable': 100, 'methods-map-values:other-non-list-iterable': 30,
+                'error-classes-sharing-a-code-on-different-methods': 40, 'second-registry-documents-sibling-error-classes': 100,
+                'second-specification-object-over-the-same-extractor-objects': 200, 'entries-searched-for-foreign-errors': 1000}}
 
 PENDING = []          # documents for the meta-schema worker: (key, kind, doc, case)
 
@@ -108,6 +120,79 @@ def entries(kind, doc):
     return {k: [inline(doc, v)] for k, v in doc.get('paths', {}).items()}
 
 
+# what the values of `methods_map` (declared Mapping[str, Iterable[Method]]) are handed over as
+ONE_SHOT = ['generator', 'filter', 'map', 'iter', 'chain', 'reversed', 'islice']
+RE_ITERABLE = ['tuple', 'dict-values', 'deque', 'iterable-object']
+CONTAINERS = ['list'] + ONE_SHOT + RE_ITERABLE
+
+
+class _JustIterable:
+    """re-iterable, but neither sized nor indexable"""
+
+    def __init__(self, items):
+        self._items = list(items)
+
+    def __iter__(self):
+        return iter(list(self._items))
+
+
+def as_container(flavour, lst):
+    lst = list(lst)
+    if flavour == 'list':
+        return lst
+    if flavour == 'generator':
+        return (m for m in lst)
+    if flavour == 'filter':
+        return filter(lambda m: m is not None, lst)
+    if flavour == 'map':
+        return map(lambda m: m, lst)
+    if flavour == 'iter':
+        return iter(lst)
+    if flavour == 'chain':
+        return itertools.chain(lst[:1], lst[1:])
+    if flavour == 'reversed':
+        return reversed(lst[::-1])
+    if flavour == 'islice':
+        return itertools.islice(lst, len(lst))
+    if flavour == 'tuple':
+        return tuple(lst)
+    if flavour == 'dict-values':
+        return {i: m for i, m in enumerate(lst)}.values()
+    if flavour == 'deque':
+        return collections.deque(lst)
+    if flavour == 'iterable-object':
+        return _JustIterable(lst)
+    raise ValueError(flavour)
+
+
+def container_tag(flavour):
+    return '' if flavour == 'list' else ':methods-map-values-are-' + ('one-shot-iterables' if flavour in ONE_SHOT else 'non-list-iterables')
+
+
+def documented_error_keys(m):
+    """keys of specworld.ERRORS that the method's own annotations / docstring name"""
+    ann = m.get('annotate') or {}
+    own = set(['A', 'B'] if ann.get('errors') == 'shared' else ann.get('errors') or [])
+    return own | {e for e in (m.get('doc') or {}).get('raises', []) if e in specworld.ERRORS}
+
+
+def foreign_error_tokens(entry, m):
+    """class names / messages of error classes in the (inlined) entry of a method that documents none of them"""
+    own = documented_error_keys(m)
+    tokens = lambda keys: {t for k in keys for t in (specworld.ERRORS[k].__name__, specworld.ERRORS[k].message)}
+    text = json.dumps(entry)
+    return sorted(t for t in tokens(specworld.ERRORS) - tokens(own) if t in text)
+
+
+def same_code_classes_on_different_methods(methods):
+    """two methods document DIFFERENT error classes that share one code"""
+    for fam in specworld.SAME_CODE_FAMILIES:
+        per_method = [documented_error_keys(m) & set(fam) for m in methods]
+        if any(a and b and a != b for a, b in itertools.combinations(per_method, 2)):
+            return True
+    return False
+
+
 def generate(kind, stack, method_specs, prefixes, shared, status_map, order=None):
     if order is not None:
         # only the selected methods exist (are defined, annotated, registered), in that order
@@ -126,13 +211,17 @@ def endpoint_path(root, prefix):
     return root if not prefix else root.rstrip('/') + '/' + prefix.lstrip('/')
 
 
-def run_case(ctx, kind, stack, methods, prefixes, status_map, repeats, root='/api'):
-    cls = (kind, stack, json.dumps(methods, sort_keys=True), tuple(prefixes), status_map, root)
+def run_case(ctx, kind, stack, methods, prefixes, status_map, repeats, root='/api', container='list'):
+    cls = (kind, stack, json.dumps(methods, sort_keys=True), tuple(prefixes), status_map, root, container)
+    if container != 'list':
+        ctx.hit('methods-map-values:' + ('one-shot-iterable' if container in ONE_SHOT else 'other-non-list-iterable'))
+    ctag = container_tag(container)
     if root != '/api':
         ctx.hit('root-path-with-a-trailing-slash')
     fam = f'{kind}:{stack}'
     ctx.hit(fam)
-    wit = dict(kind=kind, extractors=stack, methods=methods, endpoint_prefixes=prefixes, status_map=status_map)
+    wit = dict(kind=kind, extractors=stack, methods=methods, endpoint_prefixes=prefixes, status_map=status_map,
+               methods_map_values=container)
     shared = {'errors_list': [specworld.SpecErrA, specworld.SpecErrB], 'singular_extractor_kw': repeats % 2 == 0}
     try:
         spec, mobjs, funcs, mm = generate(kind, stack, methods, prefixes, shared, status_map)
@@ -158,6 +247,10 @@ def run_case(ctx, kind, stack, methods, prefixes, status_map, repeats, root='/ap
         ctx.hit('status-map-errors')
     if len({m['name'] for m in methods}) < len(methods):
         ctx.hit('same-name-on-two-endpoints')
+    same_code = same_code_classes_on_different_methods(methods)
+    if same_code:
+        ctx.hit('error-classes-sharing-a-code-on-different-methods')
+    sctag = ':error-classes-sharing-a-code' if same_code else ''
     watched = {'meta': [utils.get_meta(f) for f in funcs.values()], 'shared': shared}
     before = fingerprint(watched)
     docs = []
@@ -181,10 +274,11 @@ def run_case(ctx, kind, stack, methods, prefixes, status_map, repeats, root='/ap
                 ctx.violation(f'schema-raises:{type(e).__name__}:{kind}:bystander', fam, cls, exception=e, **wit)
                 return
         try:
-            d = spec.schema(path=root, methods_map=mm)
+            # (every generation is handed a map of its own: a one-shot iterable can be walked once)
+            d = spec.schema(path=root, methods_map={p_: as_container(container, ms_) for p_, ms_ in mm.items()})
         except Exception as e:
             ctx.violation(f'schema-raises:{type(e).__name__}:{kind}:{"default-or-docstring" if stack in ("default", "docstring") else stack}'
-                          + (f':generation{r + 1}' if r else ''), fam, cls, exception=e, generation=r + 1, **wit)
+                          + (f':generation{r + 1}' if r else '') + ctag, fam, cls, exception=e, generation=r + 1, **wit)
             return
         try:
             text = json.dumps(d, cls=specs.JSONEncoder)
@@ -219,14 +313,27 @@ def run_case(ctx, kind, stack, methods, prefixes, status_map, repeats, root='/ap
         want = [m['name'] for m, p in zip(methods, prefixes) if p == '']
         got = [m.get('name') for m in doc.get('methods', [])]
         if sorted(want) != sorted(got):
-            ctx.violation('openrpc-methods-not-exactly-the-registered-ones', fam, cls, expected=want, got=got, **wit)
+            ctx.violation('openrpc-methods-not-exactly-the-registered-ones' + ctag, fam, cls, expected=want, got=got, **wit)
             return
     else:
         want = [f"{endpoint_path(root, p)}#{m['name']}" for m, p in zip(methods, prefixes)]
         got = list(doc.get('paths', {}))
         if sorted(want) != sorted(got):
-            ctx.violation('openapi-paths-not-exactly-the-registered-methods', fam, cls, expected=want, got=got, **wit)
+            ctx.violation('openapi-paths-not-exactly-the-registered-methods' + ctag, fam, cls, expected=want, got=got, **wit)
             return
+    # ---- an entry names no error class that only OTHER methods document (class names and messages are unique tokens)
+    by_key = {}
+    for m, p in zip(methods, prefixes):
+        key = m['name'] if kind == 'openrpc' else f"{endpoint_path(root, p)}#{m['name']}"
+        by_key.setdefault(key, []).append(m)
+    for key, ms in by_key.items():
+        if len(ms) == 1 and key in ent:
+            ctx.hit('entries-searched-for-foreign-errors')
+            foreign = foreign_error_tokens(ent[key], ms[0])
+            if foreign:
+                ctx.violation('method-entry-shows-an-error-class-documented-for-another-method-only' + sctag, fam, cls, entry=key, foreign=foreign,
+                              own_errors=sorted(documented_error_keys(ms[0])), **wit)
+                return
     # ---- isolation: each method alone, and the whole set in reverse order
     if len(methods) > 1:
         variants = [('reversed', list(range(len(methods)))[::-1])] + [(f'alone:{i}', [i]) for i in range(len(methods))]
@@ -249,7 +356,7 @@ def run_case(ctx, kind, stack, methods, prefixes, status_map, repeats, root='/ap
                         if len(group) > 1 and (len(set(group)) < len(group) or None in group):
                             dup = True      # same exposed name on two endpoints without pairwise distinct component prefixes
                     ctx.violation('method-entry-depends-on-the-other-methods:' + _diff_class(diff)
-                                  + (':same-exposed-name-on-two-endpoints-without-prefixes' if dup else ''), fam, cls, variant=label,
+                                  + (':same-exposed-name-on-two-endpoints-without-prefixes' if dup else sctag), fam, cls, variant=label,
                                   entry=key, difference=diff, **wit)
                     return
     # ---- the same specification object serves another registry afterwards: pure function of the registry it is given
@@ -260,6 +367,12 @@ def run_case(ctx, kind, stack, methods, prefixes, status_map, repeats, root='/ap
             v['params'] = [[p[0], p[1], specworld.TYPES[(specworld.TYPES.index(p[2]) + 3) % len(specworld.TYPES)], p[3]] for p in m['params']]
             v['params'] = v['params'] + ([['z', 'KO', 'str', True]] if len(v['params']) < 3 else [])
             v['ret'] = specworld.RETURNS[(specworld.RETURNS.index(m.get('ret')) + 2) % len(specworld.RETURNS)]
+            if isinstance((m.get('annotate') or {}).get('errors'), list):
+                # ... and documents the next refinement of the same generic error (another class, the same code)
+                v['annotate'] = dict(m['annotate'], errors=[specworld.SIBLING.get(e, e) for e in m['annotate']['errors']])
+                if v['annotate']['errors'] != m['annotate']['errors']:
+                    ctx.hit('second-registry-documents-sibling-error-classes')
+                    sctag = ':error-classes-sharing-a-code'
             variant.append(v)
         try:
             sh3 = {'errors_list': [specworld.SpecErrA, specworld.SpecErrB]}
@@ -267,7 +380,13 @@ def run_case(ctx, kind, stack, methods, prefixes, status_map, repeats, root='/ap
             mm3 = {}
             for mo, p_ in zip(vm, prefixes):
                 mm3.setdefault(p_, []).append(mo)
-            reused = json.loads(json.dumps(spec.schema(path=root, methods_map=mm3), cls=specs.JSONEncoder))
+            spec_again = spec
+            if repeats == 3:
+                # another specification object that is handed the SAME extractor objects
+                spec_again = specworld.make_spec(kind, stack, {'singular_extractor_kw': False}, status_map,
+                                                 extractor_objects=shared['extractor_objects'])
+                ctx.hit('second-specification-object-over-the-same-extractor-objects')
+            reused = json.loads(json.dumps(spec_again.schema(path=root, methods_map=mm3), cls=specs.JSONEncoder))
             sh4 = {'errors_list': [specworld.SpecErrA, specworld.SpecErrB]}
             spec4, _, _, mm4 = generate(kind, stack, variant, prefixes, sh4, status_map)
             fresh = json.loads(json.dumps(spec4.schema(path=root, methods_map=mm4), cls=specs.JSONEncoder))
@@ -276,12 +395,13 @@ def run_case(ctx, kind, stack, methods, prefixes, status_map, repeats, root='/ap
             return
         ctx.hit('reused-spec-comparisons')
         if not typed_eq(entries(kind, reused), entries(kind, fresh)):
-            ctx.violation('document-depends-on-what-the-specification-object-generated-before', fam, cls,
-                          difference=_first_diff(entries(kind, reused), entries(kind, fresh)), second_registry=variant, **wit)
+            ctx.violation('document-depends-on-what-the-' + ('extractor-objects' if repeats == 3 else 'specification-object') + '-generated-before'
+                          + sctag, fam, cls, difference=_first_diff(entries(kind, reused), entries(kind, fresh)), second_registry=variant, **wit)
             return
         if not typed_eq(reused, fresh):
             # the entries agree but the rest does not: components / tags / servers left over from the earlier registry
-            ctx.violation('document-depends-on-what-the-specification-object-generated-before:outside-the-method-entries', fam, cls,
+            ctx.violation('document-depends-on-what-the-' + ('extractor-objects' if repeats == 3 else 'specification-object')
+                          + '-generated-before:outside-the-method-entries', fam, cls,
                           difference=_first_diff(reused, fresh), second_registry=variant, **wit)
             return
     PENDING.append((len(PENDING), kind, doc, ('case', dict(kind=kind, stack=stack, methods=methods, prefixes=prefixes,
@@ -425,7 +545,7 @@ def random_method(rng, idx, allow_view=True):
          'params': params, 'ret': rng.choice(specworld.RETURNS),
          'ctx': 'ctx' if rng.random() < 0.25 else None}
     if rng.random() < 0.55:
-        m['doc'] = {'params': rng.choice([True, True, 'bare', False]), 'returns': rng.choice([True, 'rtype', False]), 'raises': rng.sample(['A', 'B', 'C', 'abstract', 'client', 'unknown'], rng.choice([0, 0, 1, 2, 3])),
+        m['doc'] = {'params': rng.choice([True, True, 'bare', False]), 'returns': rng.choice([True, 'rtype', False]), 'raises': rng.sample(['A', 'B', 'C', 'abstract', 'client', 'unknown', 'NFp', 'Dw'], rng.choice([0, 0, 1, 2, 3])),
                     'deprecated': rng.random() < 0.2}
     if rng.random() < 0.6:
         a = {}
@@ -434,6 +554,9 @@ def random_method(rng, idx, allow_view=True):
             a['errors'] = 'shared'
         elif r < 0.6:
             a['errors'] = rng.sample(['A', 'B', 'C'], rng.choice([1, 2]))
+        elif r < 0.8:
+            # one refinement of a generic application error (the refinements share its code), alone or next to an unrelated error
+            a['errors'] = [rng.choice(rng.choice(specworld.SAME_CODE_FAMILIES))] + rng.sample(['A', 'C'], rng.choice([0, 0, 1]))
         if rng.random() < 0.3:
             a['tags'] = rng.sample(['t1', 't2', 't3'], rng.choice([1, 2]))
         if rng.random() < 0.3:
@@ -490,6 +613,12 @@ def gen(ctx):
                 # the documented way to keep their components apart: a distinct component prefix per method
                 methods[0].setdefault('annotate', {})['prefix'] = 'V1_'
                 methods[1].setdefault('annotate', {})['prefix'] = 'V2_'
+        if n >= 2 and rng.random() < 0.12:
+            # two services refine one generic application error: the first and the last method document different refinements
+            fam = rng.choice(specworld.SAME_CODE_FAMILIES)
+            first, last = rng.sample(fam, 2)
+            methods[0].setdefault('annotate', {})['errors'] = [first] + rng.sample(['B', 'C'], rng.choice([0, 1]))
+            methods[-1].setdefault('annotate', {})['errors'] = [last]
         if k % 5 == 0:
             for m in methods:
                 m['pd_config'] = True        # (on every method: the option belongs to the extractor, i.e. to the whole case)
@@ -497,8 +626,11 @@ def gen(ctx):
             k += 1
             stacks = STACKS if kind != 'openrpc' else ['default', 'pydantic', 'docstring']
             stack = stacks[k % len(stacks)] if not full else rng.choice(stacks)
+            # every second case hands the methods over in something else than a list (one-shot iterables twice as often)
+            flavour = rng.choice(ONE_SHOT + RE_ITERABLE + ONE_SHOT)
             yield 'case', dict(kind=kind, stack=stack, methods=methods, prefixes=prefixes, status_map=bool(k % 3 == 0),
-                               repeats=1 + k % 3, **({'root': ('/', '/api/v1/')[(k // 4) % 2]} if k % 4 == 0 else {}))
+                               repeats=1 + k % 3, **({'root': ('/', '/api/v1/')[(k // 4) % 2]} if k % 4 == 0 else {}),
+                               **({'container': flavour} if k % 2 else {}))
     # crafted: shared errors list, prefix on first / later only, docstring raises next to annotated errors
     base = lambda name, **kw: dict({'name': name, 'params': [['a', 'PK', 'int', False]], 'ret': 'Thing', 'ctx': None}, **kw)
     crafted = [
@@ -528,6 +660,11 @@ def gen(ctx):
          base('m2', annotate={'shared_deco': True})],
         [base('m0', annotate={'shared_deco': True}), base('m1', annotate={'shared_deco': True, 'description': 'own-m1', 'errors': ['B']})],
         [base('m0', pd_config=True, annotate={'errors': ['A']}), base('m1', pd_config=True)],
+        # refinements of one generic error (same code, own class name / message), each documented for another method
+        [base('m0', annotate={'errors': ['NFu']}), base('m1', annotate={'errors': ['NFp']})],
+        [base('m0', annotate={'errors': ['NFp', 'A']}), base('m1', annotate={'errors': ['NF']}), base('m2', annotate={'errors': ['NFu', 'Dr']})],
+        [base('m0', annotate={'errors': ['Dw']}), base('m1', annotate={'errors': ['D'], 'prefix': 'Px'}), base('m2', view=True, annotate={'errors': ['Dr']})],
+        [base('m0', annotate={'errors': ['Dr']}, doc={'raises': ['NFp'], 'params': True}), base('m1', annotate={'errors': ['NFu']}, doc={'raises': ['Dw']})],
         [base('m0', pd_config=True, doc={'raises': ['B'], 'params': True}), base('m1', pd_config=True, annotate={'errors': ['C']}), base('m2', pd_config=True)],
     ]
     for methods in crafted:
